@@ -13,7 +13,7 @@ T_INPUT = "bounded-exhaustive enumeration of inputs on the real code against an 
 T_FAULT = "exhaustive enumeration of endpoint answer sequences (fault injection at the transport seam) on the real push loop under the controlled scheduler"
 T_LOOM = "loom: exhaustive thread interleavings and C11 atomic behaviours of the real flow_control.rs up to a preemption bound; Notify model bound to tokio by exhaustive conformance sequences"
 
-NOTE_DSCHED = "trusted: tokio 1.40.0 (+ verif_hook patch redirecting spawn and the select! start index), tonic/prost, the harness' reference oracle; interleavings at poll-step + hooked preemption-point granularity with nested preemption only; small worlds (<=2 topics, <=3 subscriptions, <=4 clients); virtual time moved only at harness-chosen instants"
+NOTE_DSCHED = "trusted: tokio 1.40.0 (+ verif_hook patch redirecting spawn and the select! start index), tonic/prost, the harness' reference oracle; interleavings at poll-step + hooked preemption-point granularity with nested preemption only; small worlds (<=3 topics, <=3 subscriptions, <=4 clients; single large-count units beyond that); virtual time moved only at harness-chosen instants"
 
 import os
 props = [json.loads(l) for l in open('/verif/properties.jsonl')]
